@@ -78,7 +78,7 @@ def _rule_for(spec, u, qual):
 
 # Which property a failed clause speaks about (DESIGN.md 2.3): the units of the VM mix select / scheduling semantics with
 # heap accounting in one contract, so a failure is attributed by the vocabulary of the failing conjunct.
-_ACCT = re.compile(r"refcounts|\bocc\(|occ_seq|proc_roots|all_roots|select_held|\brooted\b|heap_wf|\bfreed\b|pending_free|balanced|proc_ok|proc_counted|select_counted|awaiting_counted|can_release|can_retain|counts_small|\.heap\b|heap\.len|\bheap\)|allocated|injected|reclaimed|only_counts_and_process|same_but_counts|nothing_reclaimed|spec_vec_len\(.*heap")
+_ACCT = re.compile(r"refcounts|\bocc\(|occ_seq|proc_roots|all_roots|select_held|\brooted\b|heap_wf|\bfreed\b|pending_free|balanced|proc_ok|proc_counted|select_counted|awaiting_counted|can_release|can_retain|counts_small|\.heap\b|heap\.len|\bheap\)|allocated|injected|reclaimed|only_counts_and_process|same_but_counts|nothing_reclaimed|heap_untouched|spec_vec_len\(.*heap")
 # representation invariants that some other function's safety precondition relies on (an index, an unwrap, a counter):
 # a producer that breaks one of them makes a worker panic downstream
 _SAFEINV = re.compile(r"select_wf|receiving_ok|cursors(@|\.view\(\))\.len\(\)|frames_fn_ok|frames_fn_kept|table_sane|table_fn_ok|proc_sane|callers_can_advance|stack_small|frames_ok|counter_ok|processes(@|\.view\(\))\.(dom\(\)|contains_key)")
